@@ -3,8 +3,7 @@
 //! Engines (env `HX_ENGINE`):
 //!   `arrange`  — C15.  Request `arrange \t <T> \t <wire P> \t <wire T(P)>` where `T(P)` is one of the
 //!                three rearrangements of `hx_projgen::arrange`.  P and T(P) are each compiled by the
-//!                REAL compiler in a fresh child process (`one`): the iteration order of the merged
-//!                maps is the order of interning, which depends on the history of the process.
+//!                REAL compiler (in-process; `HX_MERGE_FRESH=1`: each in a fresh child process `one`).
 //!                Answer: `st=<P>/<T(P)>` and per entrypoint of P
 //!                `ep=<Type.field> P=<canonical map> T=<canonical map> ord=<same|diff:class> ops=<same|diff>`.
 //!   `validate` — C16.  Request `validate \t <tag> \t <wire>` where tag is `valid`, `fault:<kind>`,
@@ -43,22 +42,17 @@ fn status_of(r: &CompileResult) -> String {
     }
 }
 
-fn one() {
-    let mut input = String::new();
-    std::io::stdin().read_to_string(&mut input).unwrap();
-    let out = std::io::stdout();
-    let mut out = out.lock();
-    let Some(p) = from_wire(input.trim()) else {
-        writeln!(out, "status\tbad-wire").unwrap();
-        return;
-    };
+/// One compile with the event sink of the verification hook switched on: status + per declared
+/// entrypoint the digests of its operation artifacts and the merged map its printers were given.
+fn capture(p: &Project) -> (String, Vec<(String, String, String, String)>) {
     isograph_schema::verif::verif_start();
-    let mut session = Session::from_project(&p);
+    let mut session = Session::from_project(p);
     let outcome = session.compile();
     let events = isograph_schema::verif::verif_take();
-    writeln!(out, "status\t{}", status_of(&outcome.result)).unwrap();
+    let status = status_of(&outcome.result);
+    let mut eps = vec![];
     if !outcome.result.is_ok() {
-        return;
+        return (status, eps);
     }
     let mut meta: Option<String> = None;
     let mut qmap: Option<String> = None;
@@ -75,21 +69,16 @@ fn one() {
                             let field = unhex_str(t[1]);
                             // the same code path also emits the query of a `@loadable` field
                             let declared = p.decls.iter().any(|(_, d)| d.is_entrypoint() && d.parent() == ty && d.name() == field);
-                            if !declared {
-                                meta = None;
-                                qmap = None;
-                                continue;
+                            if declared {
+                                let qt = outcome.artifacts.get(&format!("{ty}/{field}/query_text.ts"));
+                                let na = outcome.artifacts.get(&format!("{ty}/{field}/normalization_ast.ts"));
+                                eps.push((
+                                    format!("{ty}.{field}"),
+                                    qt.map_or("missing".to_string(), |b| dump::fnv(b)),
+                                    na.map_or("missing".to_string(), |b| dump::fnv(b)),
+                                    q.trim().to_string(),
+                                ));
                             }
-                            let qt = outcome.artifacts.get(&format!("{ty}/{field}/query_text.ts"));
-                            let na = outcome.artifacts.get(&format!("{ty}/{field}/normalization_ast.ts"));
-                            writeln!(
-                                out,
-                                "E\t{ty}.{field}\t{}\t{}\t{}",
-                                qt.map_or("missing".to_string(), |b| dump::fnv(b)),
-                                na.map_or("missing".to_string(), |b| dump::fnv(b)),
-                                q.trim()
-                            )
-                            .unwrap();
                         }
                     }
                 }
@@ -98,6 +87,23 @@ fn one() {
             }
             _ => {}
         }
+    }
+    (status, eps)
+}
+
+fn one() {
+    let mut input = String::new();
+    std::io::stdin().read_to_string(&mut input).unwrap();
+    let out = std::io::stdout();
+    let mut out = out.lock();
+    let Some(p) = from_wire(input.trim()) else {
+        writeln!(out, "status\tbad-wire").unwrap();
+        return;
+    };
+    let (status, eps) = capture(&p);
+    writeln!(out, "status\t{status}").unwrap();
+    for (name, q, n, map) in eps {
+        writeln!(out, "E\t{name}\t{q}\t{n}\t{map}").unwrap();
     }
 }
 
@@ -110,6 +116,24 @@ struct Ep {
 struct Captured {
     status: String,
     eps: BTreeMap<String, Ep>,
+}
+
+/// The order of the compiler's maps is by string CONTENT and embedded source locations (`StringId: Ord`
+/// compares `as_str()`), not by interning order, so a compile does not depend on the history of the
+/// process: compiles run in-process unless `HX_MERGE_FRESH=1` asks for a child process per compile.
+fn run_compile(wire: &str) -> Captured {
+    if std::env::var("HX_MERGE_FRESH").map_or(false, |v| v == "1") {
+        return run_child(wire);
+    }
+    let Some(p) = from_wire(wire) else {
+        return Captured { status: "bad-wire".to_string(), eps: BTreeMap::new() };
+    };
+    let (status, eps) = capture(&p);
+    let mut cap = Captured { status, eps: BTreeMap::new() };
+    for (name, q, n, map) in eps {
+        cap.eps.insert(name, Ep { q, n, map: dump::parse_wire_map(&map) });
+    }
+    cap
 }
 
 fn run_child(wire: &str) -> Captured {
@@ -195,8 +219,8 @@ fn run_arrange(f: &[&str]) -> String {
     if f.len() < 4 {
         return "bad-op".to_string();
     }
-    let a = run_child(f[2]);
-    let b = run_child(f[3]);
+    let a = run_compile(f[2]);
+    let b = run_compile(f[3]);
     let mut out = vec![format!("st={}/{}", status_class(&a.status), status_class(&b.status))];
     if a.status != "ok" || b.status != "ok" {
         return out.join("\t");
@@ -376,6 +400,109 @@ fn run_validate(f: &[&str]) -> String {
 
 // ---------------------------------------------------------------------------------------------
 
+
+// ---------------------------------------------------------------------------------------------
+// hand-built witnesses (`witness` prints their request lines; they live in corpus/C15, corpus/C16)
+// ---------------------------------------------------------------------------------------------
+
+fn obj_type(name: &str, fields: Vec<FieldDef>) -> TypeDef {
+    TypeDef { name: name.into(), description: None, kind: TypeKind::Object { implements: vec![], fields } }
+}
+fn fd(name: &str, args: Vec<ArgDef>, ty: TypeRef) -> FieldDef {
+    FieldDef { name: name.into(), description: None, args, ty }
+}
+fn ad(name: &str, ty: TypeRef) -> ArgDef {
+    ArgDef { name: name.into(), description: None, ty, default: None }
+}
+fn sel(alias: Option<&str>, name: &str, args: Vec<(&str, Value)>, kids: Option<Vec<Selection>>) -> Selection {
+    let head = SelHead {
+        alias: alias.map(|s| s.to_string()),
+        name: name.into(),
+        args: args.into_iter().map(|(k, v)| (k.to_string(), v)).collect(),
+        directives: vec![],
+    };
+    match kids {
+        None => Selection::Scalar(head),
+        Some(k) => Selection::Linked(head, k),
+    }
+}
+fn home(schema: Vec<TypeDef>, vars: Vec<VarDef>, selections: Vec<Selection>) -> Project {
+    Project {
+        schema: Schema { types: schema },
+        extensions: vec![],
+        decls: vec![
+            (
+                "src/Home.tsx".into(),
+                Decl::ClientField(ClientField { parent: "Query".into(), name: "Home".into(), vars, directives: vec![], description: None, selections }),
+            ),
+            ("src/Home.tsx".into(), Decl::Entrypoint(Entrypoint { parent: "Query".into(), name: "Home".into(), directives: vec![] })),
+        ],
+        options: Options::default(),
+        extra_files: vec![],
+    }
+}
+
+fn witnesses() -> Vec<(&'static str, String)> {
+    let named = TypeRef::named;
+    let pet = || obj_type("Pet", vec![fd("id", vec![], named("ID").non_null()), fd("name", vec![], named("String")), fd("age", vec![], named("Int"))]);
+    let input = || TypeDef { name: "In".into(), description: None, kind: TypeKind::Input { fields: vec![ad("a", named("Int"))] } };
+    let obj = |n: i64| Value::Object(vec![("a".to_string(), Value::Int(n))]);
+    let mut out = vec![];
+    // C15: the same field with the same object-literal argument, selected twice
+    {
+        let schema = || vec![obj_type("Query", vec![fd("score", vec![ad("by", named("In"))], named("Int"))]), input()];
+        let p = home(schema(), vec![], vec![sel(None, "score", vec![("by", obj(1))], None)]);
+        let q = home(schema(), vec![], vec![sel(None, "score", vec![("by", obj(1))], None), sel(Some("dup2_score"), "score", vec![("by", obj(1))], None)]);
+        out.push(("C15 dup-object-argument", format!("arrange\tdup\t{}\t{}", to_wire(&p), to_wire(&q))));
+    }
+    // C15: two selections of one field that differ in a string argument, written in the other order
+    {
+        let schema = || vec![obj_type("Query", vec![fd("pet", vec![ad("name", named("String"))], named("Pet"))]), pet()];
+        let a = || sel(Some("a"), "pet", vec![("name", Value::str("zz"))], Some(vec![sel(None, "name", vec![], None)]));
+        let b = || sel(Some("b"), "pet", vec![("name", Value::str("aa"))], Some(vec![sel(None, "name", vec![], None)]));
+        let p = home(schema(), vec![], vec![a(), b()]);
+        let q = home(schema(), vec![], vec![b(), a()]);
+        out.push(("C15 order-string-argument", format!("arrange\tperm\t{}\t{}", to_wire(&p), to_wire(&q))));
+    }
+    // C15: two selections with the SAME object-literal argument and different sub-selections, swapped
+    {
+        let schema = || vec![obj_type("Query", vec![fd("pet", vec![ad("by", named("In"))], named("Pet"))]), pet(), input()];
+        let a = || sel(Some("a"), "pet", vec![("by", obj(1))], Some(vec![sel(None, "name", vec![], None)]));
+        let b = || sel(Some("b"), "pet", vec![("by", obj(1))], Some(vec![sel(None, "age", vec![], None)]));
+        let p = home(schema(), vec![], vec![a(), b()]);
+        let q = home(schema(), vec![], vec![b(), a()]);
+        out.push(("C15 order-same-object-argument", format!("arrange\tperm\t{}\t{}", to_wire(&p), to_wire(&q))));
+    }
+    // C16: required argument missing on a selection WITH a selection set
+    {
+        let schema = vec![obj_type("Query", vec![fd("pet", vec![ad("id", named("ID").non_null())], named("Pet"))]), pet()];
+        let p = home(schema, vec![], vec![sel(None, "pet", vec![], Some(vec![sel(None, "name", vec![], None)]))]);
+        out.push(("C16 missing-required-argument-linked", format!("validate\tdefect:missing-required-argument-linked\t{}", to_wire(&p))));
+    }
+    // C16: undefined argument called `id`
+    {
+        let schema = vec![obj_type("Query", vec![fd("pet", vec![ad("id", named("ID").non_null())], named("Pet"))]), pet()];
+        let p = home(
+            schema,
+            vec![],
+            vec![sel(None, "pet", vec![("id", Value::Int(1))], Some(vec![sel(None, "name", vec![("id", Value::Int(2))], None)]))],
+        );
+        out.push(("C16 undefined-argument-id", format!("validate\tdefect:undefined-argument-id\t{}", to_wire(&p))));
+    }
+    // C16: a variable of exactly the argument's type, the type being a nullable list
+    {
+        let ids = || named("ID").non_null().list();
+        let schema = vec![obj_type("Query", vec![fd("pets", vec![ad("ids", ids())], named("Pet"))]), pet()];
+        let p = home(
+            schema,
+            vec![VarDef { name: "ids".into(), ty: ids(), default: None }],
+            vec![sel(None, "pets", vec![("ids", Value::var("ids"))], Some(vec![sel(None, "name", vec![], None)]))],
+        );
+        out.push(("C16 nullable-list-variable", format!("validate\tdefect:nullable-list-variable\t{}", to_wire(&p))));
+    }
+    out
+}
+
 fn show() {
     let mut input = String::new();
     std::io::stdin().read_to_string(&mut input).unwrap();
@@ -422,6 +549,30 @@ fn main() {
         }
         Some("show") => {
             show();
+            return;
+        }
+        Some("demos") => {
+            // the three demo projects of /repo/demos through the compiler this binary links
+            for name in ["pet-demo", "github-demo", "vite-demo"] {
+                match load_demo(name) {
+                    None => println!("{name}: not found"),
+                    Some(files) => {
+                        let out = compile_files(&files);
+                        println!("{name}: {}", out.result.summary());
+                        if let CompileResult::Diagnostics(ds) = &out.result {
+                            for d in ds.iter().take(10) {
+                                println!("    [{}] {}", d.kind, d.message);
+                            }
+                        }
+                    }
+                }
+            }
+            return;
+        }
+        Some("witness") => {
+            for (name, line) in witnesses() {
+                println!("# {name}\n{line}");
+            }
             return;
         }
         _ => {}
